@@ -4,5 +4,5 @@ From FB Require Import Sem.Base Sem.ReadBuf Model.Fb Model.Tokio GenEq.Tac.
 From FB Require Gen.TokioGen.
 Open Scope Z_scope.
 
-Lemma gen_eq : forall s, TokioGen.afb_poll_flush s = Tokio.afb_poll_flush s.
+Lemma gen_eq : forall chk s, TokioGen.afb_poll_flush chk s = Tokio.afb_poll_flush s.
 Proof. gen_eq. Qed.
